@@ -887,7 +887,9 @@ class Exec:
                 return self.cast(v, m.group(2), m.group(3), frame, self.operand_type(m.group(1), frame))
             return self.operand(r, frame)
         if r.startswith('&raw '):
-            raise Unsupported(r)
+            # `&raw const (fake) (*_n)`: address taken only to read the slice length in a bounds check;
+            # other raw borrows are treated like shared borrows of the place (no pointer arithmetic is modelled)
+            r = '&' + re.sub(r'^&raw (const|mut) (\(fake\) )?', '', r)
         if r.startswith('&'):
             p = r[1:]
             if p.startswith('mut '):
